@@ -1,5 +1,10 @@
+pub mod bytes;
+pub mod faults;
+pub mod grammar;
 pub mod nums;
+pub mod pollmc;
 pub mod strings;
+pub mod sweeps;
 pub mod values;
 
 use crate::ev::Ctx;
@@ -13,14 +18,24 @@ pub fn run(id: &str, ctx: &Ctx) -> bool {
     match id {
         "C01" => values::c01(ctx),
         "C02" => values::c02(ctx),
+        "C03" => bytes::c03(ctx),
+        "C04" => grammar::c04(ctx),
+        "C05" => pollmc::c05(ctx),
+        "C06" => bytes::c06(ctx),
         "C07" => values::c07(ctx),
+        "C08" => pollmc::c08(ctx),
         "C09" => values::c09(ctx),
         "C10" => values::c10(ctx),
+        "C11" => bytes::c11(ctx),
+        "C12" => bytes::c12(ctx),
+        "C13" => faults::c13(ctx),
+        "C14" => faults::c14(ctx),
         "C15" => nums::c15(ctx),
         "C16" => strings::c16(ctx),
         "C17" => strings::c17(ctx),
         "C18" => strings::c18(ctx),
         "C19" => nums::c19(ctx),
+        "C20" => grammar::c20(ctx),
         _ => return false,
     }
     true
